@@ -331,6 +331,8 @@ func C08(c *core.Ctx) {
 			var tmpl string
 			tenv := map[string]string{}
 			switch style {
+			case "quoted": // the same text as a string literal, no variable at all
+				tmpl = text
 			case "var":
 				tmpl, tenv["TV"] = "${TV}", text
 			case "default":
@@ -372,7 +374,20 @@ func C08(c *core.Ctx) {
 			pathsCovered[pstr] = true
 			if ev != nil {
 				c.Report(core.Finding{Sig: "variable-rejected:" + pstr, Detail: fmt.Sprintf("%s: the literal %v loads but the same value through a variable (%s, %q) fails: %v", pstr, literalOf(kind, text), style, text, ev), Replay: rep})
-			} else if projDump(pv) != projDump(pl) {
+			} else if style == "var" && typedCases%3 == 0 {
+				// the same document arriving through an include
+				_ = os.WriteFile(filepath.Join(wd, "inc-var.yaml"), []byte(varDoc), 0o644)
+				_ = os.WriteFile(filepath.Join(wd, "inc-lit.yaml"), []byte(litDoc), 0o644)
+				mainOf := func(f string) string { return "include:\n  - " + f + "\nservices:\n  main: {image: img}\n" }
+				piv, eiv := safeLoad(wd, tenv, []namedDoc{{Name: filepath.Join(wd, "main.yaml"), Content: mainOf("inc-var.yaml")}})
+				pil, eil := safeLoad(wd, tenv, []namedDoc{{Name: filepath.Join(wd, "main.yaml"), Content: mainOf("inc-lit.yaml")}})
+				if eil == nil && eiv != nil {
+					c.Report(core.Finding{Sig: "variable-rejected-in-include:" + pstr, Detail: fmt.Sprintf("%s: in an included file the literal %v loads but the value through a variable (%q) fails: %v", pstr, literalOf(kind, text), text, eiv), Replay: rep})
+				} else if eil == nil && projDump(piv) != projDump(pil) {
+					c.Report(core.Finding{Sig: "variable-differs-in-include:" + pstr, Detail: fmt.Sprintf("%s: in an included file literal %v and variable %q load to different values", pstr, literalOf(kind, text), text), Replay: rep})
+				}
+			}
+			if ev == nil && projDump(pv) != projDump(pl) {
 				c.Report(core.Finding{Sig: "variable-differs:" + pstr, Detail: fmt.Sprintf("%s: literal %v and variable %q (%s) load to different values: %s", pstr, literalOf(kind, text), text, style, firstDiff(projDump(pv), projDump(pl))), Replay: rep})
 			}
 		}
